@@ -39,6 +39,11 @@ type cacheWorld struct {
 	iterDs  map[int]int // thread -> ds
 	base    [4]int
 	viol    func(prop, name, detail string)
+	// shared: every sqlair.DB of this history wraps the same *sql.DB (NewDB called several times on one
+	// database): the cache entries are still per sqlair.DB
+	shared bool
+	sqldbs []*sql.DB
+	ufakes []*fakeDB
 }
 
 func cacheCounts() [4]int {
@@ -109,17 +114,24 @@ func (w *cacheWorld) newStmt() {
 
 //go:noinline
 func (w *cacheWorld) newDB() {
+	if w.shared && len(w.dbs) > 0 {
+		w.dbs = append(w.dbs, sqlair.NewDB(w.sqldbs[0]))
+		w.fakes = append(w.fakes, w.fakes[0])
+		return
+	}
 	sqldb, f := openFake()
 	sqldb.SetMaxOpenConns(1)
 	w.dbs = append(w.dbs, sqlair.NewDB(sqldb))
 	w.fakes = append(w.fakes, f)
+	w.sqldbs = append(w.sqldbs, sqldb)
+	w.ufakes = append(w.ufakes, f)
 	w.logPos = append(w.logPos, 0)
 }
 
 // collect returns the printable events that appeared since the last call.
 func (w *cacheWorld) collect() []string {
 	var out []string
-	for di, f := range w.fakes {
+	for di, f := range w.ufakes {
 		evs := f.log()
 		for _, ev := range evs[w.logPos[di]:] {
 			key := fmt.Sprintf("%s/%d", f.name, ev.Stmt)
@@ -330,13 +342,19 @@ func (w *cacheWorld) teardown() {
 			w.viol("C11", "driver-statement-never-closed", key)
 		}
 	}
-	for _, f := range w.fakes {
+	for _, f := range w.ufakes {
 		dropFakeDB(f.name)
 	}
 }
 
 func genCacheScript(r *rng) []string {
 	ops := []string{"newstmt", "newdb"}
+	// a third of the histories have all their sqlair.DB values on one *sql.DB (marked by a collection
+	// as third operation, which changes nothing)
+	shared := r.chance(1, 3)
+	if shared {
+		ops = append(ops, "gc")
+	}
 	ns, nd := 1, 1
 	nt := 0
 	liveS := map[int]bool{0: true}
@@ -357,7 +375,7 @@ func genCacheScript(r *rng) []string {
 			nd++
 		case k < 11:
 			s, d := r.intn(ns), r.intn(nd)
-			if busy[d] > 0 {
+			if busy[d] > 0 || (shared && len(iterDB) > 0) {
 				continue
 			}
 			c := r.intn(4)
@@ -371,7 +389,9 @@ func genCacheScript(r *rng) []string {
 			}
 		case k < 13:
 			s, d := r.intn(ns), r.intn(nd)
-			if busy[d] > 0 {
+			if busy[d] > 0 || shared {
+				// (no open iterators in a shared history: database/sql defers the driver-level close of
+				// every statement of the one connection while it is in use)
 				continue
 			}
 			c := r.intn(4)
@@ -413,6 +433,9 @@ func genCacheScript(r *rng) []string {
 				cancelled[c] = true
 			}
 		default:
+			if len(ops) == 2 {
+				continue // a collection as third operation marks a shared history
+			}
 			ops = append(ops, "gc")
 		}
 	}
@@ -431,6 +454,7 @@ func genCacheScript(r *rng) []string {
 }
 
 type cacheStats struct {
+	Shared int `json:"histories_with_all_DBs_on_one_sql_DB"`
 	Cases      int            `json:"cases"`
 	Ops        map[string]int `json:"op_kinds"`
 	Distinct   int            `json:"distinct_cases"`
@@ -472,6 +496,10 @@ func cmdCache(args []string) int {
 		currentCase.Store(req)
 		caseStart.Store(time.Now().UnixNano())
 		w := newCacheWorld(func(prop, name, detail string) { addViol(violation{prop, name, hx(req), detail}) })
+		if len(ops) > 2 && ops[2] == "gc" {
+			w.shared = true
+			st.Shared++
+		}
 		var outs []string
 		for _, op := range ops {
 			outs = append(outs, w.exec(op))
@@ -498,6 +526,7 @@ func cmdCache(args []string) int {
 		cacheStress(r.fork(), addViol)
 		for k := 0; k < 3; k++ {
 			cacheRerun(r.fork(), addViol)
+			cachePrepareCancel(r.fork(), addViol)
 		}
 		st.Stress++
 	}
@@ -647,6 +676,82 @@ func cacheStress(r *rng, add func(violation)) {
 	for _, f := range fakes {
 		dropFakeDB(f.name)
 	}
+}
+
+// cachePrepareCancel: the caller's context ends while the driver is preparing (the driver does not
+// look at it and returns the statement).  Whatever the call reports, the statement that was prepared
+// is either usable later or closed: after the Statement and the DB have been dropped and collected
+// every driver statement has been closed exactly once and the cache is back at its baseline (C11).
+func cachePrepareCancel(r *rng, add func(violation)) {
+	desc := fmt.Sprintf("context ends during prepare, seed-state %d", r.s)
+	viol := func(prop, name, detail string) { add(violation{prop, name, hx(desc), detail}) }
+	settle()
+	base := cacheCounts()
+	cacheStmtCounter++
+	stmt := sqlair.MustPrepare(fmt.Sprintf("SELECT &Person.* FROM person WHERE id IN ($IntSlice[:]) -- pc %d", cacheStmtCounter), Person{}, IntSlice{})
+	sqldb, f := openFake()
+	sqldb.SetMaxOpenConns(1)
+	db := sqlair.NewDB(sqldb)
+	shape := func(n int) IntSlice { return make(IntSlice, n) }
+	var ps []Person
+	if r.chance(1, 2) {
+		db.Query(context.Background(), stmt, shape(1)).GetAll(&ps) // already cached with another shape
+	}
+	rounds := 1 + r.intn(3)
+	for i := 0; i < rounds; i++ {
+		ctx, cancel := context.WithCancel(context.Background())
+		f.mu.Lock()
+		f.gate = func(ev event) {
+			if ev.Kind == "prepare" {
+				cancel()
+			}
+		}
+		f.mu.Unlock()
+		err := db.Query(ctx, stmt, shape(2+i)).GetAll(&ps)
+		f.mu.Lock()
+		f.gate = nil
+		f.mu.Unlock()
+		cancel()
+		if err == nil {
+			viol("C20", "call-succeeded-although-its-context-ended-before-the-execution", "")
+		}
+		if r.chance(1, 2) {
+			if err := db.Query(context.Background(), stmt, shape(2+i)).GetAll(&ps); err != nil && !errors.Is(err, sqlair.ErrNoRows) {
+				viol("C10", "call-after-a-cancelled-call-failed", err.Error())
+			}
+		}
+	}
+	stmt = nil
+	db = nil
+	settle()
+	settle()
+	if c := cacheCounts(); c != base {
+		settle()
+		if c = cacheCounts(); c != base {
+			viol("C11", "cache-entries-left-after-everything-was-dropped", fmt.Sprintf("counts %v baseline %v", c, base))
+		}
+	}
+	prepared := map[int]bool{}
+	closed := map[int]int{}
+	for _, ev := range f.log() {
+		switch ev.Kind {
+		case "prepare":
+			if ev.Err == nil {
+				prepared[ev.Stmt] = true
+			}
+		case "stmtclose":
+			closed[ev.Stmt]++
+		}
+	}
+	for id := range prepared {
+		if closed[id] == 0 {
+			viol("C11", "driver-statement-never-closed", fmt.Sprintf("statement %d prepared while the caller's context ended", id))
+		} else if closed[id] > 1 {
+			viol("C11", "driver-statement-closed-twice", fmt.Sprintf("statement %d", id))
+		}
+	}
+	sqldb.Close()
+	dropFakeDB(f.name)
 }
 
 // cacheRerun: a Query object that the caller keeps is run again after the statement it used was
